@@ -12,7 +12,7 @@ types   `i f s b a` | `x y z` (untyped list / Tuple / dict) | `o τ` | `l τ` | 
         `c<n> S<name> (S<field> τ (`-` | `= v`))…`
 raw     `i f s b a` | `N` NoneType | `x y z` | `Y` builtin tuple | `?` anything else | `u<n> ρ…` Union |
         `l ρ` | `v ρ` | `t<n> ρ…` | `d ρkey ρ` | `c<n> S<name> (S<field> ρ (`-` | `= v`) (`+` | `!`))…`  (`!` = init=False)
-ops     `rty ρ` (select the raw type) · `rcheck` · `rparse v` · `rfrom v` · `choose (S…|-) (S…|-)` · `setkey S… v v`
+ops     `rty ρ` (select the raw type) · `rcheck` · `rparse v` · `rfrom v` · `choose (S…|-) (S…|-)` · `setkey S… v v` · `applyctx contexts cfg`
         `ty τ` (select the type) · `wf` · `parse v` · `ctor v` · `todict v` · `strip S…` · `line S…` ·
         `hook v` · `dump v`
 -/
@@ -293,6 +293,14 @@ def stepRaw (ρ : RawTy) (line : String) : Option (RawTy × String) :=
       | some f => some (ρ, encStr f)
       | none => some (ρ, "-")
     | _, _ => some (ρ, "bad-op")
+  | "applyctx" :: rest =>
+    match pVals 2 rest with
+    | some ([.dict ctxs, .dict cfg], []) =>
+      match applyContextCfg ρ ctxs cfg with
+      | some (.ok out) => some (ρ, s!"ok {encVal (.dict out)}")
+      | some (.error e) => some (ρ, encExc e)
+      | none => some (ρ, "unmodelled")
+    | _ => some (ρ, "bad-op")
   | "setkey" :: kTok :: rest =>
     match pStr kTok, pVals 2 rest with
     | some k, some ([v, .dict kvs], []) => some (ρ, encVal (.dict (setKey k v kvs)))
